@@ -320,18 +320,20 @@ def point_from_sec33(b):
     return pt
 
 
-def xkey_reject_reason(raw):
+def xkey_reject_reason(raw, master_rule=True):
     """why a payload must be refused when imported (BIP32 'Serialization format' and test vector 5),
-    or None for a well-formed extended key"""
+    or None for a well-formed extended key.  master_rule=False leaves out the two test-vector-5 rules about
+    depth 0 (parent fingerprint and child number must be zero): the structural well-formedness that a
+    serialise/parse round trip needs."""
     if len(raw) != 78:
         return "length"
     version, depth, fp, num, cc, key = xkey_fields(raw)
     info = version_info(version)
     if info is None:
         return "unknown version"
-    if depth == 0 and fp != b"\x00\x00\x00\x00":
+    if master_rule and depth == 0 and fp != b"\x00\x00\x00\x00":
         return "zero depth with non-zero parent fingerprint"
-    if depth == 0 and num != 0:
+    if master_rule and depth == 0 and num != 0:
         return "zero depth with non-zero index"
     if info[1] == "prv":
         if key[0] != 0:
@@ -352,10 +354,10 @@ def b58_xkey(raw):
     return text.base58check_encode(raw)
 
 
-def xkey_text_decode(s):
+def xkey_text_decode(s, master_rule=True):
     """text -> 78-byte payload of a well-formed extended key, or None"""
     from . import text
     raw = text.base58check_decode(s)
-    if raw is None or xkey_reject_reason(raw) is not None:
+    if raw is None or xkey_reject_reason(raw, master_rule) is not None:
         return None
     return raw
